@@ -102,6 +102,7 @@ func init() {
 		Cases: func(tier string) int { return tierN(tier, 1200, 60000) },
 		Rule: "case = one history (10-45 ops quick, up to 100 thorough) rich in commits without writes, empty and one-leaf trees, pruning, rollbacks to a version, reopenings at the latest or an OLDER version followed by re-commits (identical and different writes), initial version unset/1/5/63/64/1000000, invalid version arguments (12%). " +
 			"After every step: commit numbering vs model; for every v in {0,1,first-2..latest+1}: VersionExists, AvailableVersions membership, GetImmutable, GetLatestVersion, GetVersioned outside the range, all on the live handle AND on a freshly opened handle (reopen), plus LoadVersion(v) on a fresh handle; a re-commit of an existing version number must succeed iff the reference tree R says the root hash is identical, a rejected re-commit or rejected deletion must leave the raw store byte-identical, and after every rejected request (load of a missing version, rollback to one, different re-commit, deletion of the latest) the same handle must answer the full model read battery of its working state incl. uncommitted writes (\"leaves the tree usable\") and goes on with the history. " +
+			"Every 6th case runs with background pruning (AsyncPruningOption, SetCommitting/UnsetCommitting around commits, only valid requests, no reopen operations): after each DeleteVersionsTo the executor waits (bounded) until the pruning goroutine has taken the versions out of the range; from then on - while the deletions are still pending in the batch and the roots still in the store - every range API of that handle must agree with the model, LoadVersion of each removed version on that handle must fail and leave it where it was with its working state readable; fresh-handle comparisons wait for the next commit. " +
 			"Every 5th case uses its first handle without an initial Load(): a prefix of 3-6 operations writes to the fresh tree, then issues LoadVersion on the store that still has no version (nothing is loaded, the working tree is kept), with or without a Rollback after it, and the planned history follows. distinct = hash(config, ops); non-trivial = >=3 commits and >=1 of {prune, rollback-to-version, load of an older version, re-commit of an existing version}.",
 		Assumptions: []string{"model M for the version range; reference tree R decides whether a re-commit is identical", "LoadVersion(v<=0) means 'latest' (library convention)"},
 		Run: func(c *fw.Ctx) {
@@ -115,6 +116,12 @@ func init() {
 			v1x.LazyPrefix(pl, c.Index)
 			if v1x.EmptyKeyVariant(pl, c.Index) {
 				c.Obs("histories_with_the_empty_key", 1)
+			}
+			if c.Index%6 == 5 && !pl.Cfg.NoLoad {
+				// background pruning: the range every API answers with is the one the pruning
+				// goroutine has already established, also while its deletions are still pending
+				pl.Cfg.Async = true
+				c.Obs("histories_with_background_pruning", 1)
 			}
 			c.Res.Digest = fw.DigestOf(pl.Cfg, pl.Summary(1000))
 			if c.Index < 2 {
@@ -135,9 +142,32 @@ func init() {
 					before, _ = seam.Dump(e.W.Inner)
 				}
 				baseOld := e.M.Base != e.M.Latest
+				firstBefore := e.M.First
 				out := e.Apply(op, true)
 				if e.Dead {
 					break
+				}
+				if e.Cfg.Async && op.Kind == "delto" && out.Err == nil && !out.Expect.Noop {
+					// the versions just taken out of the range (their deletions are still pending in
+					// the batch, their roots still in the store) must not load on this handle
+					at := e.T.Version()
+					for v := firstBefore; v <= op.N && v < firstBefore+6; v++ {
+						if v <= 0 {
+							continue
+						}
+						if _, err := e.T.LoadVersion(v); err == nil {
+							e.Bad("book|async-window|loadversion", "LoadVersion(%d) succeeded on the handle whose background pruning has removed versions up to %d from the range (AvailableVersions()=%v)", v, op.N, e.T.AvailableVersions())
+							e.Dead = true
+							break
+						} else if e.T.Version() != at {
+							e.Bad("book|async-window|moved", "the rejected LoadVersion(%d) moved the tree from version %d to %d", v, at, e.T.Version())
+						}
+						c.Obs("loads_of_versions_pruned_in_the_background_rejected", 1)
+					}
+					if e.Dead {
+						break
+					}
+					e.CheckReads(e.T, e.M.Work, "work-after-async-window-loads", v1x.Probes(pl.Universe, e.M.Work))
 				}
 				if out.Expect.Fail && before != nil {
 					// a rejected request must leave the store unchanged
@@ -170,9 +200,12 @@ func init() {
 					pk = pl.Universe[0]
 				}
 				checkBookkeeping(e, e.T, "live", pk, false)
-				// the same after a reopen (fresh handle, fresh caches)
+				// the same after a reopen (fresh handle, fresh caches); with background pruning only
+				// once the processed deletions have been flushed by a commit
 				h := e.OpenHandle(e.Cfg)
-				if _, err := h.Load(); err != nil {
+				if e.AsyncPending {
+					c.Obs("reopen_checks_skipped_while_background_deletions_are_pending", 1)
+				} else if _, err := h.Load(); err != nil {
 					e.Bad("book|reopen|load-error", "Load() on a fresh handle: %v", err)
 				} else {
 					checkBookkeeping(e, h, "reopened", pk, true)
@@ -180,7 +213,7 @@ func init() {
 				// a NEW handle that never loaded anything commits on the same store: its version number
 				// (1, or the configured initial version) exists already with other contents, so the commit
 				// must fail and leave the store unchanged
-				if e.Step%9 == 4 && e.M.Latest > 0 && !e.M.Dirty {
+				if e.Step%9 == 4 && e.M.Latest > 0 && !e.M.Dirty && !e.AsyncPending {
 					start := int64(1)
 					if e.M.Initial > 0 {
 						start = e.M.Initial
@@ -217,7 +250,7 @@ func init() {
 			c.Res.Nontrivial = saves >= 3 && special >= 1
 		},
 		Floor: func(obs map[string]int, evals, nontrivial int) string {
-			if obs["version_queries"] < 10000 || obs["recommit_identical"] < 5 || obs["recommit_different_rejected"] < 5 || obs["rejected_requests"] < 20 || obs["usable_after_rejected_checks"] < 20 || obs["cold_handle_commits_rejected"] < 20 {
+			if obs["version_queries"] < 10000 || obs["recommit_identical"] < 5 || obs["recommit_different_rejected"] < 5 || obs["rejected_requests"] < 20 || obs["usable_after_rejected_checks"] < 20 || obs["cold_handle_commits_rejected"] < 20 || obs["loads_of_versions_pruned_in_the_background_rejected"] < 20 {
 				return fmt.Sprintf("too few observations: %v", obs)
 			}
 			return ""
